@@ -333,3 +333,59 @@ def r02_10(ctx, run, rule='R02.10'):
     else:
         run.proved(rule, b.path, 'surrogate-pair', f'{n} pairing path(s): ranges 0xD800..=0xDBFF / 0xDC00..=0xDFFF and the Unicode formula', loc)
     run.floor(rule, 'surrogate pairing paths', n, 1)
+
+
+# ------------------------------------------------------------------ R02.12 the hex-digit table of the \u decoder
+
+def const_operands(j, out=None):
+    """every constant operand of a MIR json fragment"""
+    if out is None:
+        out = []
+    if isinstance(j, dict):
+        if j.get('k') == 'const':
+            out.append(j)
+        for v in j.values():
+            if isinstance(v, (dict, list)):
+                const_operands(v, out)
+    elif isinstance(j, list):
+        for v in j:
+            const_operands(v, out)
+    return out
+
+
+def r02_12(ctx, run, rule='R02.12'):
+    """The 256-entry table that maps a byte to its hexadecimal digit value (used by the \\uXXXX decoder of the JSON
+    text parser, the JSONPath parser and the key-path parser) is the hex-digit function: '0'-'9' -> 0-9, 'a'-'f' and
+    'A'-'F' -> 10-15, every other byte -> the not-a-digit marker."""
+    f = ctx.facts
+    tabs = {}
+    for p, b in f.bodies.items():
+        if b.kind == 'Promoted' or not p.startswith('util::'):
+            continue
+        for blk in b.blocks:
+            for o in const_operands(blk):
+                st = o.get('static')
+                if st and o.get('bytes') and len(o['bytes']) == 256:
+                    tabs[st] = (o['bytes'], p, b)
+    if not tabs:
+        run.undecided(rule, 'util::HEX', 'table', 'no 256-entry static byte table is used by the escape decoder any more: hex digits are decoded in another way, which this rule does not read')
+        return
+    for st, (tb, p, b) in sorted(tabs.items()):
+        bad = []
+        markers = set()
+        for i, v in enumerate(tb):
+            ch = chr(i)
+            if ch in '0123456789abcdefABCDEF':
+                if v != int(ch, 16):
+                    bad.append(f'{ch!r} -> {v} (must be {int(ch, 16)})')
+            else:
+                markers.add(v)
+                if v <= 15:
+                    bad.append(f'byte {i:#04x} -> {v}: a non-digit is given a digit value')
+        if len(markers) > 1:
+            bad.append(f'non-digits map to several values {sorted(markers)[:4]}')
+        loc = f'{b.file}:{b.line}'
+        if bad:
+            run.violation(rule, p, f'table[{st.split("::")[-1]}]', 'the hex-digit table is wrong: ' + '; '.join(bad[:3]) + ' — \\\\uXXXX escapes containing that digit decode to a different code point', loc)
+        else:
+            run.proved(rule, p, f'table[{st.split("::")[-1]}]', f'22 hex digits map to their values, the other 234 bytes to the marker {sorted(markers)[0] if markers else "-"}', loc)
